@@ -477,24 +477,44 @@ impl Sys {
             }
         }
         let enr_now = self.w.discv5.local_enr();
+        for fam6 in [false, true] {
         if let Some(prev) = self.enr_prev.clone() {
-            let before = prev.udp4_socket().map(SocketAddr::V4);
-            let after = enr_now.udp4_socket().map(SocketAddr::V4);
+            let before = if fam6 { prev.udp6_socket().map(SocketAddr::V6) } else { prev.udp4_socket().map(SocketAddr::V4) };
+            let after = if fam6 { enr_now.udp6_socket().map(SocketAddr::V6) } else { enr_now.udp4_socket().map(SocketAddr::V4) };
             if before != after {
                 self.address_updates += 1;
                 rep.count("sys_address_updates");
+                if fam6 {
+                    rep.count("sys_address_updates_ipv6");
+                }
                 match after {
                     None => self.flag(rep, Focus::C17, "C17:address-removed-by-pong", "the UDP address disappeared from the local record".into(), json!({})),
                     Some(a) => {
-                        // latest vote of every voter that was eligible when it voted
+                        // What each voter's stored vote can be. Single stack: the latest vote it
+                        // cast while it was a connected outgoing table entry. Dual stack: votes of
+                        // other peers are taken too while a family lacks votes, so any later vote
+                        // of that voter may or may not have replaced it.
+                        let maybe_counted = self.stack == Stack3::Dual;
+                        let mut stored: HashMap<Id, Vec<SocketAddr>> = HashMap::new();
+                        for (_, v, addr, eligible) in &self.votes {
+                            if addr.is_ipv6() != fam6 {
+                                continue;
+                            }
+                            if *eligible {
+                                stored.insert(*v, vec![*addr]);
+                            } else if maybe_counted {
+                                stored.entry(*v).or_default().push(*addr);
+                            }
+                        }
+                        let support = stored.values().filter(|c| c.contains(&a)).count();
                         let mut latest: HashMap<Id, (Duration, SocketAddr)> = HashMap::new();
-                        for (t, v, addr, eligible) in &self.votes {
-                            if *eligible && !addr.is_ipv6() {
-                                latest.insert(*v, (*t, *addr));
+                        for (v, c) in &stored {
+                            // surely stored: every possibility is the same address
+                            if !c.is_empty() && c.iter().all(|x| *x == c[0]) && (!maybe_counted || self.votes.iter().any(|(_, w, x, e)| w == v && *e && *x == c[0])) {
+                                latest.insert(*v, (now, c[0]));
                             }
                         }
                         let alive = |t: &Duration| *t + self.vote_duration > now;
-                        let support = latest.values().filter(|(t, x)| *x == a && alive(t)).count();
                         let log: Vec<String> = self.votes.iter().rev().take(40).map(|(t, v, x, e)| format!("{:?} {} votes {x} eligible={e}", t, hx(&v[..4]))).collect();
                         if support < self.vote_min {
                             self.flag(rep, Focus::C17, "C17:update-below-minimum", format!("the address changed to {a} backed by {support} current votes of eligible peers, the minimum is {}", self.vote_min), json!({"votes": log}));
@@ -523,6 +543,7 @@ impl Sys {
                     }
                 }
             }
+        }
         }
         self.enr_prev = Some(enr_now);
 
@@ -1565,8 +1586,9 @@ pub fn votes(seed: u64, rep: &mut Report) {
         // in real time). The whole scenario stays well inside one vote duration of either clock.
         let vote_duration = Duration::from_secs(300);
         let ping = *rng.pick(&[5u64, 9]);
+        let dual = rng.chance(1, 3);
         let cfg = WorldCfg {
-            stack: Stack3::V4,
+            stack: if dual { Stack3::Dual } else { Stack3::V4 },
             victim_enr_has_addr: rng.bool(),
             request_timeout: Duration::from_millis(500),
             request_retries: 1,
@@ -1582,15 +1604,26 @@ pub fn votes(seed: u64, rep: &mut Report) {
         s.vote_duration = vote_duration;
         s.talk_policy = 0;
         let n = min + rng.usize(9);
-        let spec = NetSpec { n, silent: rng.usize(2), mismatched: 0, no_addr: 0, v6: 0 };
-        let all = build_net(&mut s, &spec);
+        let nv6 = if dual { 1 + rng.usize(min + 3) } else { 0 };
+        let spec = NetSpec { n, silent: rng.usize(2), mismatched: 0, no_addr: 0, v6: nv6 };
+        let mut all = build_net(&mut s, &spec);
+        rng.shuffle(&mut all);
         // liars: fewer than the minimum most of the time, sometimes enough to win
         let liars = if rng.chance(1, 4) { rng.usize(n + 1) } else { rng.usize(min) };
         let lie_a = v4(198, 51, 100, 7, 30303);
         let lie_b = v4(203, 0, 113, 9, 30303);
         let together = rng.bool();
+        let lie6_a = v6(0x666, 30303);
+        let lie6_b = v6(0x667, 30303);
         for (k, i) in all.iter().enumerate().take(liars) {
-            s.w.nodes[*i].b.pong_addr = Some(if together || k % 2 == 0 { lie_a } else { lie_b });
+            let six = s.w.nodes[*i].sim.addr().is_ipv6();
+            let first = together || k % 2 == 0;
+            s.w.nodes[*i].b.pong_addr = Some(match (six, first) {
+                (false, true) => lie_a,
+                (false, false) => lie_b,
+                (true, true) => lie6_a,
+                (true, false) => lie6_b,
+            });
         }
         if rng.chance(1, 3) {
             s.w.faults = Faults3 { drop: rng.below(150), dup: rng.below(80), delay: rng.below(100), ..Default::default() };
@@ -1620,7 +1653,8 @@ pub fn votes(seed: u64, rep: &mut Report) {
                     // a liar changes its story
                     if liars > 0 {
                         let i = all[rng.usize(liars)];
-                        s.w.nodes[i].b.pong_addr = Some(*rng.pick(&[lie_a, lie_b, VICTIM_V4]));
+                        let six = s.w.nodes[i].sim.addr().is_ipv6();
+                        s.w.nodes[i].b.pong_addr = Some(if six { *rng.pick(&[lie6_a, lie6_b, crate::rig::r3::VICTIM_V6]) } else { *rng.pick(&[lie_a, lie_b, VICTIM_V4]) });
                     }
                 }
             }
@@ -1641,7 +1675,7 @@ pub fn votes(seed: u64, rep: &mut Report) {
         if liars > 0 && liars < min {
             rep.count("sys_vote_scenarios_with_fewer_liars_than_minimum");
         }
-        rep.fingerprint(&("sys-votes", min, liars.min(8), s.address_updates.min(4), together, vote_duration.as_secs()));
+        rep.fingerprint(&("sys-votes", min, liars.min(8), s.address_updates.min(4), together, dual));
         if rep.want_sample() && s.address_updates > 0 {
             rep.sample(json!({"scenario_seed": seed.to_string(), "kind": "system-votes", "minimum": min, "nodes": n, "liars": liars, "address_updates": s.address_updates, "votes_delivered": s.votes.len(), "final_address": s.w.discv5.local_enr().udp4_socket().map(|a| a.to_string())}));
         }
